@@ -283,7 +283,9 @@ func (c *Conn) GetNextActionFromByte(start int64) *NextActionInfo {
 		ind := sort.Search(len(actions),
 			func(i int) bool { return actions[i].getByte() >= start })
 
-		return c.GetNextActionFromIndex(int64(ind))
+		// The locks are already held here; taking the read locks again (as
+		// GetNextActionFromIndex does) deadlocks once a writer is waiting.
+		return nextActionFromIndex(actions, int64(ind))
 	}
 
 	return &NextActionInfo{
@@ -306,8 +308,12 @@ func (c *Conn) GetNextActionFromIndex(ind int64) *NextActionInfo {
 	c.Shapes.M[c.Context.URLRegex].RLock()
 	defer c.Shapes.M[c.Context.URLRegex].RUnlock()
 
-	actions := c.Shapes.M[c.Context.URLRegex].Shape.Actions
+	return nextActionFromIndex(c.Shapes.M[c.Context.URLRegex].Shape.Actions, ind)
+}
 
+// nextActionFromIndex finds the next action with a non zero count at or after
+// index ind. The caller must hold the locks protecting actions.
+func nextActionFromIndex(actions []Action, ind int64) *NextActionInfo {
 	if l := int64(len(actions)); l != 0 {
 
 		for ind < l && (actions[ind].getCount() == 0) {
